@@ -1,7 +1,7 @@
 #!/bin/bash
 # runs every claimed check's quick command once, sequentially; prints one line per property
-cd /verif
+cd "$(dirname "$0")/.."
 for p in $(python3 -c "import json; print(' '.join(c['property_id'] for c in json.load(open('MANIFEST.json'))['checks']))"); do
-  s=$(date +%s); bin/check $p --tier ${1:-quick} > /tmp/all-$p.log 2>&1; rc=$?; e=$(date +%s)
-  echo "$p rc=$rc $((e-s))s $(grep -c KNOWN-FINDING /tmp/all-$p.log) known; $(grep -E "VIOLATION|$p ${1:-quick}:" /tmp/all-$p.log | tail -1 | cut -c1-150)"
+  s=$(date +%s); bin/check $p --tier ${1:-quick} > ${TMPDIR:-/tmp}/all-$p-${1:-quick}.log 2>&1; rc=$?; e=$(date +%s)
+  echo "$p rc=$rc $((e-s))s $(grep -c KNOWN-FINDING ${TMPDIR:-/tmp}/all-$p-${1:-quick}.log) known; $(grep -E "VIOLATION|$p ${1:-quick}:" ${TMPDIR:-/tmp}/all-$p-${1:-quick}.log | tail -1 | cut -c1-150)"
 done
